@@ -660,6 +660,14 @@ func exchange(u *vk.Unit, p *reg.Package, m reg.Method, cm reflect.Value, args [
 		return nil
 	}
 	if ok, where := valgen.Equal(resp, got, valgen.EqOpts{NilEqualsEmpty: true, IgnoreTime: ignoreTime, UnsetMayBecomeSet: ignoreTime}); !ok {
+		if st.serverErr != "" && (class == valgen.Hostile || respErr != nil) {
+			// the server could not carry the handler's response (a header value containing the style's
+			// delimiter, a value failing response validation) and REPORTED it: its error handler ran and
+			// answered 5xx, which a declared default response lets the client decode without error.
+			// One side reported an error, nothing was silently changed.
+			u.Label(className + ":response-refused-by-server")
+			return nil
+		}
 		cl := "response-silent-change"
 		switch {
 		case strings.Contains(where, ": float ") && !strings.Contains(where, ".Response"):
